@@ -1,0 +1,64 @@
+//go:build verif
+
+// Contracts for token generation (C16), checked by /verif/govc (comment-only file).
+
+package ring
+
+//@ pred notTaken(s []uint32, taken []uint32) = forall i, j int :: 0 <= i && i < len(s) && 0 <= j && j < len(taken) ==> s[i] != taken[j]
+//@
+//@ func RandomTokenGenerator.GenerateTokens
+//@   property C16 C08
+//@   ensures  count: requestedTokensCount > 0 ==> len(result) == requestedTokensCount
+//@   ensures  empty: requestedTokensCount <= 0 ==> len(result) == 0
+//@   ensures  sorted: sortedStrict(result)
+//@   ensures  untaken: notTaken(result, allTakenTokens)
+//@   loop 0 invariant !isnil(used) && (forall j int :: 0 <= j && j < $i ==> in($coll[j], used) && used[$coll[j]])
+//@   loop 1 invariant !isnil(used) && 0 <= i && i <= requestedTokensCount && len(tokens) == i
+//@   loop 1 invariant forall j int :: 0 <= j && j < len(allTakenTokens) ==> in(allTakenTokens[j], used) && used[allTakenTokens[j]]
+//@   loop 1 invariant forall j int :: 0 <= j && j < len(tokens) ==> in(tokens[j], used) && used[tokens[j]]
+//@   loop 1 invariant forall a, b int :: 0 <= a && a < b && b < len(tokens) ==> tokens[a] != tokens[b]
+//@   loop 1 invariant notTaken(tokens, allTakenTokens)
+//@
+//@ func SpreadMinimizingTokenGenerator.generateFirstInstanceTokens
+//@   property C16
+//@   requires 0 <= t.zoneID && t.zoneID < 8
+//@   ensures  len(result) == 512
+//@   ensures  formula: forall i int :: 0 <= i && i < 512 ==> result[i] == i * 8388608 + t.zoneID
+//@   ensures  sortedStrict(result)
+//@   ensures  congruent: forall i int :: 0 <= i && i < 512 ==> result[i] % 8 == t.zoneID
+//@   loop 0 invariant 0 <= i && i <= 512 && len(tokens) == i && tokenDistance == 8388608
+//@   loop 0 invariant forall j int :: 0 <= j && j < i ==> tokens[j] == j * 8388608 + t.zoneID
+//@   modifies nothing
+//@
+//@ immutable errorMultipleOfZonesCount property C16
+//@ immutable errorLowerAndUpperBoundModulo property C16
+//@ immutable errorDistanceBetweenTokensNotBigEnough property C16
+//@
+//@ func SpreadMinimizingTokenGenerator.calculateNewToken
+//@   property C16
+//@   ensures  congruent: r1 == nil ==> r0 % 8 == token.prevToken % 8 && r0 % 8 == token.token % 8
+//@   ensures  moved: r1 == nil && optimalTokenOwnership < 4294967288 ==> r0 != token.prevToken
+//@   ensures  inside: r1 == nil ==> tokenDistance(token.prevToken, r0) <= tokenDistance(token.prevToken, token.token)
+//@   ensures  step: r1 == nil ==> (tokenDistance(token.prevToken, r0) == optimalTokenOwnership || tokenDistance(token.prevToken, r0) == optimalTokenOwnership + 8)
+//@   modifies nothing
+//@
+//@ func SpreadMinimizingTokenGenerator.generateAllTokens
+//@   property C16
+//@   ensures  r1 == nil ==> sortedNS(r0)
+//@
+//@ func SpreadMinimizingTokenGenerator.GenerateTokens
+//@   property C16 C08
+//@   ensures  untaken: notTaken(result, allTakenTokens)
+//@   ensures  count: len(result) <= max(requestedTokensCount, 0)
+//@   ghost var idx total[int]int = havoc
+//@   ghost var un int = 0
+//@   ensures  sorted: sortedNS(result)
+//@   loop 0 invariant !isnil(used) && (forall j int :: 0 <= j && j < $i ==> in($coll[j], used) && used[$coll[j]])
+//@   loop 1 invariant 0 <= i && i <= len(allTokens) && sortedNS(allTokens) && len(uniqueTokens) <= max(requestedTokensCount, 0)
+//@   loop 1 invariant forall j int :: 0 <= j && j < len(allTakenTokens) ==> in(allTakenTokens[j], used) && used[allTakenTokens[j]]
+//@   loop 1 invariant notTaken(uniqueTokens, allTakenTokens)
+//@   loop 1 invariant forall j int :: 0 <= j && j < len(uniqueTokens) ==> 0 <= idx[j] && idx[j] < i && uniqueTokens[j] == allTokens[idx[j]]
+//@   loop 1 invariant forall a, b int :: 0 <= a && a < b && b < len(uniqueTokens) ==> idx[a] < idx[b]
+//@   loop 1 invariant un == len(uniqueTokens)
+//@   loop 1 end idx := len(uniqueTokens) > un ? store(idx, len(uniqueTokens) - 1, i - 1) : idx
+//@   loop 1 end un := len(uniqueTokens)
